@@ -6,7 +6,9 @@ pub mod c04;
 pub mod c12;
 pub mod c16;
 pub mod c17;
+pub mod c18;
 pub mod c19;
+pub mod alloc_watch;
 pub mod mutate;
 pub mod pipeline;
 pub mod prog;
@@ -35,6 +37,7 @@ pub fn registry() -> Vec<Property> {
         Property { id: "C12", gen: c12::gen, exec: c12::exec, shrink: c12::shrink, runs: (3000, 60000) },
         Property { id: "C16", gen: c16::gen, exec: c16::exec, shrink: c16::shrink, runs: (400, 8000) },
         Property { id: "C17", gen: c17::gen, exec: c17::exec, shrink: c17::shrink, runs: (240, 5000) },
+        Property { id: "C18", gen: c18::gen, exec: c18::exec, shrink: c18::shrink, runs: (48, 1500) },
         Property { id: "C19", gen: c19::gen, exec: c19::exec, shrink: c19::shrink, runs: (40, 600) },
     ]
 }
